@@ -465,7 +465,8 @@ def serialise_chunks(phys, r, cuts, eol='lf', nl='none', empties=False):
         chunks.append(c)
     if empties and r.random() < 0.5:
         chunks.append('')
-    return {'chunks': chunks}
+    # the chunk sequence reaches parse_script as a list, a tuple, or a ONE-SHOT iterable (iterator / generator, as a file object is)
+    return {'chunks': chunks, 'as': r.choice(['list', 'list', 'tuple', 'iter', 'gen'])}
 
 
 def all_cuts(nlines, maxcuts=6):
